@@ -123,15 +123,24 @@ class Report:
         self.trusted_base = []
         self.assumptions = []
         self._nontrivial = set()
+        self._seen = set()
+        self._floors = []
 
     # -- recording -----------------------------------------------------------------------------
     def ok(self, rule, instance, nontrivial=True):
+        key = (rule, str(instance), True)
+        if key in self._seen:
+            return
+        self._seen.add(key)
         self.obligations.append((rule, str(instance), True))
         if nontrivial:
             self._nontrivial.add((rule, str(instance)))
 
     def fail(self, finding, instance=None):
-        self.obligations.append((finding.rule, str(instance if instance is not None else finding.construct), False))
+        key = (finding.rule, str(instance if instance is not None else finding.construct), False)
+        if key not in self._seen:
+            self._seen.add(key)
+            self.obligations.append(key)
         self._nontrivial.add((finding.rule, str(instance if instance is not None else finding.construct)))
         # one finding per key
         if all(f.key != finding.key for f in self.findings):
@@ -157,10 +166,16 @@ class Report:
 
     def floor(self, key, minimum):
         """Instance floor: fewer analysed instances than confirmed by hand = analysis broken."""
-        have = self.analysed.get(key, 0)
-        if have < minimum:
-            raise AnalysisError('instance floor not met for {}: analysed {} < expected {} '
-                                '(anchor vanished or rule no longer matches the code)'.format(key, have, minimum))
+        self._floors.append((key, minimum))
+
+    def check_floors(self):
+        """Evaluated by the runner when no violation was found: a vacuous pass is analysis-broken, but a floor must not
+        mask a violation that was already established."""
+        for key, minimum in self._floors:
+            have = self.analysed.get(key, 0)
+            if have < minimum:
+                raise AnalysisError('instance floor not met for {}: analysed {} < expected {} '
+                                    '(anchor vanished or rule no longer matches the code)'.format(key, have, minimum))
 
 
 def load_known():
@@ -186,6 +201,8 @@ def run_property(prop, runner, repo_root, tier, level, seed=0, write_evidence=Tr
     try:
         repo = Repo(repo_root)
         report = runner(repo, tier)
+        if not report.findings:
+            report.check_floors()
     except AnalysisError as e:
         emit('ANALYSIS-ERROR property={} {}'.format(prop, e))
         return 2, out
